@@ -372,7 +372,16 @@ func runC12(c *Ctx) {
 		return
 	}
 	user := &env.IdPUser{Sub: pol.sub, Claims: map[string]any{"preferred_username": pol.userName}}
-	if ok, cb := b.Login("/connect", user); !ok {
+	// the login may happen from another address than the download (roaming client, other
+	// proxy): the file must bind the address of the request that obtains it
+	dlFrom, dlXFF := b.From, b.XFF
+	if c.T.Bool(1, 3) {
+		b.From, b.XFF = "198.51.100.44:50123", ""
+		descr += " login-from=198.51.100.44"
+	}
+	ok0, cb := b.Login("/connect", user)
+	b.From, b.XFF = dlFrom, dlXFF
+	if !ok0 {
 		c.S.Fail("C13", "valid-login-not-authenticated", "%s: login failed: callback %d %.100q", descr, cb.Status, cb.Body)
 		return
 	}
@@ -463,6 +472,39 @@ func runC12(c *Ctx) {
 		return
 	}
 	c.S.Count("probe.file_issued." + pol.mode)
+	// history: the same user downloads again shortly afterwards from another address in a new
+	// session (fresh IdP access token): the second file must bind the second request
+	if c.T.Bool(1, 2) && pol.mode != "signed" {
+		c.S.Advance(time.Duration(c.T.Choose(50)) * time.Second)
+		ip2 := []string{"10.2.7.7", "2001:db8::77", "192.0.2.78"}[c.T.Choose(3)]
+		b2 := c.W.NewBrowser("b2", peerOf(ip2, 51500))
+		if ok, cb := b2.Login("/connect", user); !ok {
+			c.S.Fail("C13", "valid-login-not-authenticated", "%s: second login failed: callback %d", descr, cb.Status)
+			return
+		}
+		var tok2idp string
+		for t, v := range c.W.IdP.Tokens {
+			if v.Sub == pol.sub && t != idpToken {
+				tok2idp = t
+			}
+		}
+		r2 := b2.Get(path)
+		if !gotFile(r2) {
+			c.S.Fail("C12", "no-file:second-download", "%s: second download from %s answered %d", descr, ip2, r2.Status)
+			return
+		}
+		f2 := env.ParseRDP(r2.Body)
+		_, cl2, ok2 := codec.SplitJWS(f2.Values["gatewayaccesstoken"])
+		if !ok2 || cl2["clientIp"] != ip2 || cl2["accessToken"] != tok2idp || cl2["remoteServer"] != f2.Values["full address"] {
+			c.S.Fail("C12", "token-claims:second-download", "%s: a second download by the same user from %s (new session, IdP token %q) got a token with clientIp=%v accessToken=%v remoteServer=%v (file host %q)", descr, ip2, tok2idp, cl2["clientIp"], cl2["accessToken"], cl2["remoteServer"], f2.Values["full address"])
+			return
+		}
+		c.S.Count("probe.second_download_checked")
+		if c.T.Bool(1, 2) {
+			// replay the second file instead of the first
+			b, tok, host = b2, f2.Values["gatewayaccesstoken"], f2.Values["full address"]
+		}
+	}
 	// the issued host and token, presented unmodified from the same address, must work
 	replay := "n/a"
 	if pol.mode != "signed" {
